@@ -12,8 +12,9 @@
 //     p  prior         : <prior source> is assembled completely in its own AsmContext first, in the same process
 //     t  track         : between the passes every image mark (debug_line) is replaced by a sentinel; cells that still
 //                        carry it after pass 2 were not written by pass 2 -> reported as left=<runs>; marks restored
-//     x  scrub         : between the passes every byte whose mark says data or code (DL_DATA / DL_NO_CG, i.e. not a
-//                        pass-1 flag byte, which is marked with a line number or not at all) is replaced by <fill>
+//     x  scrub         : between the passes every byte marked DL_DATA (output of a data directive; never one of the
+//                        pass-1 flag bytes of the instruction parsers, which are marked with a line number, with
+//                        DL_NO_CG (6800: the placeholder bytes are the flag) or not at all) is replaced by <fill>
 //   -> the line of `prog` (st= err= low= high= entry= bpa= end= ic= img= dbg= syms=) + cnt=<data>,<code> lst=<fnv of the
 //      listing | -> out=<fnv of what was printed> [left=<addr+len;...>]
 //
@@ -105,7 +106,7 @@ static std::string det_assemble(const DetOptions &o, const std::string &source, 
         for (uint32_t off = 0; off < PAGE_SIZE; off++)
         {
           int dl = p->debug_line[off];
-          if (o.scrub && (dl == DL_DATA || dl == DL_NO_CG)) { p->bin[off] = (uint8_t)o.fill; }
+          if (o.scrub && dl == DL_DATA) { p->bin[off] = (uint8_t)o.fill; }
           if (o.track && dl != DL_EMPTY)
           {
             saved.push_back(std::make_pair(&p->debug_line[off], dl));
@@ -180,6 +181,15 @@ static std::string det_assemble(const DetOptions &o, const std::string &source, 
 
   std::string printed = capture_take();
   std::string listing = o.list ? slurp(ctx->list) : std::string();
+  if (incdir != NULL)
+  {
+    // the scratch directory of the include files has a random name: keep it out of the hashes
+    for (std::string *t : { &printed, &listing })
+    {
+      size_t pos;
+      while ((pos = t->find(incdir)) != std::string::npos) { t->replace(pos, strlen(incdir), "INCDIR"); }
+    }
+  }
   char head[320];
   snprintf(head, sizeof(head), "st=%d err=%d low=%x high=%x entry=%x bpa=%d end=%c ic=%d",
     error_flag == 0 ? 0 : 1, count_errors(printed), ctx->memory.low_address, ctx->memory.high_address,
